@@ -59,7 +59,7 @@ def run(ctx):
     ctx.count('idx_normal_exits', stats['normal_exits'])
     ctx.count('idx_forms', stats['forms'])
     floor(ctx, 'selector forms', stats['forms'], 30)
-    floor(ctx, 'index-typing paths', stats['paths'], 100)
+    floor(ctx, 'index-typing paths', stats['paths'], 50)
     # spec floor: rejection paths exist (range gates and membership gates raise ValueError)
     ctx.ob('C13.R2', init, init.node.lineno, 'out-of-range indices and unknown labels have rejecting paths',
            stats['raises'].get('ValueError', 0) >= 20, fact=f"raise outcomes {stats['raises']}",
